@@ -266,7 +266,15 @@ pub fn arb_case(max_blocks: usize) -> impl Strategy<Value = Case> {
                     let s2 = &mut hist.blocks[i + 1];
                     s2.parent = None;
                     s2.back = None;
-                    s2.bad_tx = Some((if sel % 2 == 0 { crate::adversary::TxEdit::SpentInput } else { crate::adversary::TxEdit::NonExistentInput }, 1, 0));
+                    s2.bad_tx = Some((
+                        match sel % 3 {
+                            0 => crate::adversary::TxEdit::SpentInput,
+                            1 => crate::adversary::TxEdit::NonExistentInput,
+                            _ => crate::adversary::TxEdit::ExpiredInput, // an output that left the window with the previous block
+                        },
+                        1,
+                        0,
+                    ));
                 }
                 let r = &mut hist.blocks[i + 2];
                 r.parent = None;
